@@ -270,6 +270,53 @@ pub fn main(args: &[String]) {
             "module":m,"module_msg":mm,"component":c,"component_msg":cm,"hex":hex(&bytes)}));
         bases.push((format!("model#{}", case["id"]), bytes));
     }
+    // (a') components with a zero-item section (valid; the text format never produces one) in front of, between
+    // and behind other sections, at the top level and nested
+    {
+        let core = wat::parse_str("(module (func (export \"f\")))").expect("tiny core module");
+        let header: [u8; 8] = [0x00, 0x61, 0x73, 0x6d, 0x0d, 0x00, 0x01, 0x00];
+        let mut core_sec = vec![0x01u8];
+        leb(core.len() as u32, &mut core_sec);
+        core_sec.extend_from_slice(&core);
+        let mut k = 0u64;
+        for empty_id in [2u8, 3, 6, 7, 8, 10, 11] {
+            let empty = [empty_id, 0x01, 0x00];
+            for layout in 0..4 {
+                let mut inner = header.to_vec();
+                match layout {
+                    0 => {
+                        inner.extend_from_slice(&empty);
+                        inner.extend_from_slice(&core_sec);
+                    }
+                    1 => {
+                        inner.extend_from_slice(&core_sec);
+                        inner.extend_from_slice(&empty);
+                        inner.extend_from_slice(&core_sec);
+                    }
+                    2 => {
+                        inner.extend_from_slice(&empty);
+                        inner.extend_from_slice(&empty);
+                        inner.extend_from_slice(&core_sec);
+                    }
+                    _ => {
+                        // nested: the layout-0 component as a nested component section, followed by a core module
+                        let mut n0 = header.to_vec();
+                        n0.extend_from_slice(&empty);
+                        n0.extend_from_slice(&core_sec);
+                        inner.push(0x04);
+                        leb(n0.len() as u32, &mut inner);
+                        inner.extend_from_slice(&n0);
+                        inner.extend_from_slice(&core_sec);
+                    }
+                }
+                k += 1;
+                let (m, mm, c, cm) = outcome(leak(inner.clone()));
+                out.ev(json!({"t":"parse","id":900_000 + k,"kind":"comp_model","parts":[{"p":"comp_empty_section","id":empty_id,"layout":layout}],
+                    "valid":validate(&inner).is_ok(),"module":m,"module_msg":mm,"component":c,"component_msg":cm,"hex":hex(&inner)}));
+                bases.push((format!("comp_empty#{}", k), inner));
+            }
+        }
+    }
     // (b) near-valid binaries: truncations and byte substitutions of model binaries and of the corpus
     for (label, bytes, _) in crate::rtfam::corpus() {
         if bytes.len() < 20_000 {
